@@ -631,6 +631,85 @@ def run(loader, R, tier):
     R.floor("positive control (verif_positive::stack_lines_reversed) "
             "recognised", ncontrol11, 1)
 
+    # --------------------------------------------------------------- R44.12
+    # contradiction rule: a function that tests whether a sequence is empty
+    # believes it can be; stepping or dereferencing its begin() where that
+    # test has not excluded emptiness is then undefined (it hung for the
+    # zero polynomial)
+    R.rule("R44.12", "begin() of a sequence that the function itself tests "
+                     "for emptiness is advanced/dereferenced only where "
+                     "emptiness is excluded")
+    from selib import sym as _sym12
+    n12 = 0
+    for u, f in sorted(prog.functions.items(), key=lambda kv: kv[1]["qn"]):
+        if not f.get("body") or f.get("dependent") \
+                or "/symengine/printers/" not in (f.get("file") or ""):
+            continue
+
+        def is_begin(e, name=None):
+            return e.get("k") == "mcall" and e.get("n") in ("begin",
+                                                            "cbegin") \
+                and (e.get("o") or {}).get("k") == "ref" \
+                and (name is None or e["o"].get("n") == name)
+
+        def empt_test(c):
+            """(container, True if the condition being true means empty)"""
+            if c.get("k") in ("bin", "op") and c.get("op") in ("==", "!=") \
+                    and len(c.get("a", ())) == 2:
+                a, b = c["a"]
+                for x, y in ((a, b), (b, a)):
+                    if is_begin(x) and y.get("k") == "mcall" \
+                            and y.get("n") in ("end", "cend") \
+                            and (y.get("o") or {}).get("n") == x["o"]["n"]:
+                        return x["o"]["n"], c["op"] == "=="
+            if c.get("k") == "mcall" and c.get("n") == "empty" \
+                    and (c.get("o") or {}).get("k") == "ref":
+                return c["o"]["n"], True
+            return None
+        tested = set()
+        for n in walk(f["body"]):
+            t = empt_test(n)
+            if t:
+                tested.add(t[0])
+        if not tested:
+            continue
+
+        def cb12(n, guards, line, f=f, tested=tested):
+            nonlocal n12
+            tgt = None
+            if n.get("k") in ("op", "un") and n.get("op") in ("++", "*",
+                                                              "->") \
+                    and n.get("a") and is_begin(n["a"][0]) \
+                    and n["a"][0]["o"]["n"] in tested:
+                tgt = n["a"][0]["o"]["n"]
+            elif n.get("k") == "call" and n.get("n") in ("next", "advance") \
+                    and n.get("a") and is_begin(n["a"][0]) \
+                    and n["a"][0]["o"]["n"] in tested:
+                tgt = n["a"][0]["o"]["n"]
+            if tgt is None:
+                return
+            n12 += 1
+            ok = False
+            for g in _sym12.flatten_guards(guards):
+                if g[0] == "case":
+                    continue
+                t = empt_test(g[0])
+                if t and t[0] == tgt and t[1] != bool(g[1]):
+                    ok = True
+            key = "%s:%s" % (short(f["qn"]).split("<")[0], tgt)
+            R.instance("R44.12", key + "@%s" % n.get("l"))
+            if not ok:
+                R.violation(
+                    "R44.12", key, prog.loc(f, n.get("l")),
+                    "%s advances or dereferences %s.begin() (line %s) "
+                    "where %s may be empty, although the function itself "
+                    "tests %s for emptiness elsewhere: for an empty "
+                    "sequence this steps past end() (the zero polynomial "
+                    "made printing hang)" % (short(f["qn"])[:60], tgt,
+                                             n.get("l"), tgt, tgt))
+        _sym12.visit_guarded(f["body"], cb12)
+    R.floor("begin() steps in functions that test emptiness", n12, 3)
+
     # ---------------------------------------------------------------- totality
     unsupported = {}
     for v in ALL_PRINTERS:
